@@ -7,7 +7,7 @@
 
 """ ULPI interfacing hardware. """
 
-from amaranth       import Signal, Module, Cat, Elaboratable, ClockSignal, \
+from amaranth       import Signal, Module, Cat, Mux, Elaboratable, ClockSignal, \
                            Record, ResetSignal, Const
 from amaranth.hdl.rec import Record, DIR_FANIN, DIR_FANOUT, DIR_NONE
 
@@ -438,6 +438,16 @@ class ULPIControlTranslator(Elaboratable):
         """
 
         current_register_value = Signal(8, init=reset_value, name=f"current_register_value_{address:02x}")
+
+        # The register window uses its address and data inputs throughout a write, and we route its `done` strobe
+        # by the requests below; so neither the register selected nor the value to be written may change in the
+        # middle of a write.  Hold the requested value steady from the cycle after a write has been handed to the
+        # window until the window has reported it done.
+        held_value      = Signal(8, init=reset_value, name=f"held_value_{address:02x}")
+        requested_value = Signal(8, name=f"requested_value_{address:02x}")
+        m.d.comb += requested_value.eq(Mux(self.register_window.busy | self.register_window.done, held_value, value))
+        m.d.usb  += held_value.eq(requested_value)
+        value = requested_value
 
         # Create internal signals that request register updates.
         write_requested = Signal(name=f"write_requested_{address:02x}")
